@@ -73,6 +73,10 @@ func NewBuilder(dir string, numItems uint, targetFileSize uint64) (*Builder, err
 // Index generation will fail if the same key is inserted twice.
 // The writer must not pass a value greater than targetFileSize.
 func (b *Builder) Insert(key []byte, value [36]byte) error {
+	if len(key) > 0xffff {
+		// the spill file records the key length in 16 bits
+		return fmt.Errorf("key too long: %d bytes (max 65535)", len(key))
+	}
 	return b.buckets[b.Header.BucketHash(key)].writeTuple(key, value)
 }
 
